@@ -946,6 +946,12 @@ pub fn load_rule_text(text: &str, ignore_case_build: bool) -> Result<RefRule, Re
 #[derive(Clone, Copy, Default)]
 pub struct EvalOpts {
     pub relaxed: bool,
+    /// switch set of the optimised rule whose verdict is being explained (relaxed mode only):
+    /// shake moves nested blocks to the end of an and-group and removes double negations; matrix
+    /// orders the cells of an and-group that sits directly inside an or-group (and runs shake's
+    /// second stage on the entries of a quantified group)
+    pub shake: bool,
+    pub matrix: bool,
 }
 
 pub struct Evaluator<'a> {
@@ -1277,7 +1283,39 @@ impl<'a> Evaluator<'a> {
     }
 
     pub fn eval(&self, doc: &DObj) -> RSet {
-        self.eval_cond(&self.rule.cond, doc)
+        self.eval_cond_ctx(&self.rule.cond, doc, false)
+    }
+
+    pub fn eval_cond(&self, c: &Cond, doc: &DObj) -> RSet {
+        self.eval_cond_ctx(c, doc, false)
+    }
+
+    /// May the operands of this and-group have been reordered by the optimiser?
+    fn relax_and(&self, has_nested: bool, under_or: bool) -> bool {
+        self.opts.relaxed
+            && ((has_nested && (self.opts.shake || self.opts.matrix)) || (under_or && self.opts.matrix))
+    }
+
+    fn block_has_nested(b: &RBlock) -> bool {
+        b.0.iter().any(|e| match &e.val {
+            RVal::Block(_) => true,
+            RVal::List(l) => l.iter().any(|m| matches!(m, RVal::Block(_))),
+            _ => false,
+        })
+    }
+
+    /// Does the flattened and-chain hold an operand that is (or inlines to) a nested block?
+    fn chain_has_nested(&self, c: &Cond) -> bool {
+        match c {
+            Cond::And(a, b) => self.chain_has_nested(a) || self.chain_has_nested(b),
+            Cond::Ident(n) => match self.ident(n) {
+                RIdent::Map(b) => Self::block_has_nested(b),
+                // a one-mapping sequence is unwrapped by shake and inlines like a mapping; a
+                // sequence of single nested blocks on one holder is merged into one nested block
+                RIdent::Seq(bs) => bs.iter().any(Self::block_has_nested),
+            },
+            _ => false,
+        }
     }
 
     fn ident(&self, name: &str) -> &RIdent {
@@ -1308,15 +1346,15 @@ impl<'a> Evaluator<'a> {
         }
     }
 
-    pub fn eval_cond(&self, c: &Cond, doc: &DObj) -> RSet {
+    fn eval_cond_ctx(&self, c: &Cond, doc: &DObj, under_or: bool) -> RSet {
         match c {
-            Cond::Ident(n) => self.eval_ident(self.ident(n), doc),
+            Cond::Ident(n) => self.eval_ident_ctx(self.ident(n), doc, under_or),
             Cond::And(a, b) => {
                 // flatten the and-chain so that "any non-true operand" covers regrouping
                 let mut ops = vec![];
                 self.flatten_and(c, doc, &mut ops);
                 let _ = (a, b);
-                set_and(&ops, self.opts.relaxed)
+                set_and(&ops, self.relax_and(self.chain_has_nested(c), under_or))
             }
             Cond::Or(_, _) => {
                 let mut ops = vec![];
@@ -1324,8 +1362,8 @@ impl<'a> Evaluator<'a> {
                 set_or(&ops)
             }
             Cond::Not(inner) => {
-                let r = set_not(self.eval_cond(inner, doc));
-                if self.opts.relaxed {
+                let r = set_not(self.eval_cond_ctx(inner, doc, false));
+                if self.opts.relaxed && self.opts.shake {
                     if let Some(x) = self.peel_negation(inner, doc) {
                         return r | x;
                     }
@@ -1344,7 +1382,7 @@ impl<'a> Evaluator<'a> {
                 self.flatten_and(a, doc, out);
                 self.flatten_and(b, doc, out);
             }
-            other => out.push(self.eval_cond(other, doc)),
+            other => out.push(self.eval_cond_ctx(other, doc, false)),
         }
     }
     fn flatten_or(&self, c: &Cond, doc: &DObj, out: &mut Vec<RSet>) {
@@ -1353,15 +1391,19 @@ impl<'a> Evaluator<'a> {
                 self.flatten_or(a, doc, out);
                 self.flatten_or(b, doc, out);
             }
-            other => out.push(self.eval_cond(other, doc)),
+            other => out.push(self.eval_cond_ctx(other, doc, true)),
         }
     }
 
     pub fn eval_ident(&self, id: &RIdent, doc: &DObj) -> RSet {
+        self.eval_ident_ctx(id, doc, false)
+    }
+
+    fn eval_ident_ctx(&self, id: &RIdent, doc: &DObj, under_or: bool) -> RSet {
         match id {
-            RIdent::Map(b) => self.eval_block(b, doc),
+            RIdent::Map(b) => self.eval_block_ctx(b, doc, under_or),
             RIdent::Seq(bs) => {
-                let ops: Vec<RSet> = bs.iter().map(|b| self.eval_block(b, doc)).collect();
+                let ops: Vec<RSet> = bs.iter().map(|b| self.eval_block_ctx(b, doc, true)).collect();
                 set_or(&ops)
             }
         }
@@ -1385,8 +1427,15 @@ impl<'a> Evaluator<'a> {
     }
 
     pub fn eval_block(&self, b: &RBlock, obj: &DObj) -> RSet {
-        let ops: Vec<RSet> = b.0.iter().map(|e| self.eval_entry(e, obj)).collect();
-        set_and(&ops, self.opts.relaxed)
+        self.eval_block_ctx(b, obj, false)
+    }
+
+    fn eval_block_ctx(&self, b: &RBlock, obj: &DObj, under_or: bool) -> RSet {
+        // a block that is just one nested block inside an or-group is merged with its same-holder
+        // siblings by shake, which puts the inner blocks directly under an or
+        let single_under_or = under_or && b.0.len() == 1;
+        let ops: Vec<RSet> = b.0.iter().map(|e| self.eval_entry_ctx(e, obj, single_under_or)).collect();
+        set_and(&ops, self.relax_and(Self::block_has_nested(b), under_or))
     }
 
     fn lookup<'d>(&self, obj: &'d DObj, field: &str) -> Result<Option<&'d DocVal>, ()> {
@@ -1394,6 +1443,10 @@ impl<'a> Evaluator<'a> {
     }
 
     pub fn eval_entry(&self, e: &REntry, obj: &DObj) -> RSet {
+        self.eval_entry_ctx(e, obj, false)
+    }
+
+    fn eval_entry_ctx(&self, e: &REntry, obj: &DObj, single_under_or: bool) -> RSet {
         let v = match self.lookup(obj, &e.field) {
             Ok(v) => v,
             Err(()) => return self.njr("key is not a well-formed path"),
@@ -1403,10 +1456,10 @@ impl<'a> Evaluator<'a> {
                 let inner = match &e.val {
                     RVal::List(ms) => {
                         let ops: Vec<RSet> =
-                            ms.iter().map(|m| self.eval_member(&KeyMod::None, m, v, &e.field)).collect();
+                            ms.iter().map(|m| self.eval_member(&KeyMod::None, m, v, true)).collect();
                         set_or(&ops)
                     }
-                    other => self.eval_member(&KeyMod::None, other, v, &e.field),
+                    other => self.eval_member(&KeyMod::None, other, v, false),
                 };
                 set_not(inner)
             }
@@ -1424,21 +1477,21 @@ impl<'a> Evaluator<'a> {
                     return self.njr("K3 shape");
                 }
                 let ops: Vec<RSet> =
-                    ms.iter().map(|m| self.eval_member(&KeyMod::None, m, v, &e.field)).collect();
+                    ms.iter().map(|m| self.eval_member(&KeyMod::None, m, v, true)).collect();
                 set_quant(&e.modifier, &ops)
             }
             m => match &e.val {
                 RVal::List(ms) => {
-                    let ops: Vec<RSet> = ms.iter().map(|x| self.eval_member(m, x, v, &e.field)).collect();
+                    let ops: Vec<RSet> = ms.iter().map(|x| self.eval_member(m, x, v, true)).collect();
                     set_or(&ops)
                 }
-                other => self.eval_member(m, other, v, &e.field),
+                other => self.eval_member(m, other, v, single_under_or),
             },
         }
     }
 
     /// One member (`field: value`, value not a list) under modifier None / Int / Flt / Str.
-    fn eval_member(&self, m: &KeyMod, val: &RVal, v: Option<&DocVal>, _field: &str) -> RSet {
+    fn eval_member(&self, m: &KeyMod, val: &RVal, v: Option<&DocVal>, in_list: bool) -> RSet {
         let v = match v {
             None => return M,
             Some(v) => v,
@@ -1447,7 +1500,7 @@ impl<'a> Evaluator<'a> {
             (_, RVal::List(_)) => self.nj(),
             // ---- nested block
             (KeyMod::None, RVal::Block(b)) => match v {
-                DocVal::Obj(o) => self.eval_block(b, o),
+                DocVal::Obj(o) => self.eval_block_ctx(b, o, in_list),
                 DocVal::Arr(a) => {
                     if b.0.len() == 1 && matches!(b.0[0].modifier, KeyMod::All) {
                         // K7: a block that is exactly one all(k) list is evaluated per member
@@ -1460,7 +1513,7 @@ impl<'a> Evaluator<'a> {
                     for x in &a.0 {
                         if let DocVal::Obj(o) = x {
                             any_obj = true;
-                            let r = self.eval_block(b, o);
+                            let r = self.eval_block_ctx(b, o, in_list);
                             if r & T != 0 {
                                 can_t = true;
                             }
